@@ -163,7 +163,8 @@ DEFAULTS = dict(entry=3, flags=0, scale=8.0, sw=2.0, ow=0.0, oh=0.0, fs=14, ff='
                 fill='black', bg='white', sc='black', step_budget=0, depth_budget=0)
 
 ENTRY_NAMES = ['to_svg', 'to_svg_string_pretty', 'to_svg_string_compressed', 'to_svg_with_settings',
-               'to_svg_with_override_size', 'CellBuffer::from + get_node_with_size twice (entry 5: first render at scale `ow` with the switches inverted)']
+               'to_svg_with_override_size', 'CellBuffer::from + get_node_with_size twice (entry 5: first render at scale `ow` with the switches inverted)',
+               'CellBuffer converted, edited through DerefMut to hold the cells of a second document, converted again (entry 6: input = first U+001E second)']
 
 
 def _s(x):
@@ -194,6 +195,9 @@ class Driver:
         self.buf = b''
         self.noise_pos = 0
         self.warmed = False
+        # the conversions this process has served, most recent last (bounded): a disagreement that does not
+        # reproduce on a fresh process is replayed together with this history
+        self.history = []
 
     def close(self):
         if self.p is None:
@@ -262,6 +266,9 @@ class Driver:
         """one conversion; raises DriverDied / Watchdog"""
         a = dict(DEFAULTS)
         a.update(kw)
+        self.history.append((inp, dict(kw), record))
+        if len(self.history) > 48:
+            del self.history[:-48]
         flags = a['flags'] | (8 if record else 0)
         msg = (struct.pack('<I', 0) + struct.pack('<IIffffQQI', a['entry'], flags, a['scale'], a['sw'], a['ow'], a['oh'],
                                                   a['fs'], a['step_budget'], a['depth_budget'])
@@ -613,14 +620,30 @@ class Ctx:
         if getattr(mod, 'CONFIRM', True):
             # confirm on a fresh driver
             try:
+                history = list(self.drv.history)
                 self.drv.restart()
                 snapshot = (self.evals, set(self.keys), Counter(self.tags))
                 msg2 = mod.check_case(self, case)
                 self.evals, self.keys, self.tags = snapshot
+                if msg2 is None:
+                    # not reproducible from a fresh process: is it the conversions served before this case?
+                    ncalls = len(self.drv.history)
+                    prior = history[:len(history) - ncalls] if ncalls <= len(history) else []
+                    self.drv.restart()
+                    for (inp, kw, record) in prior:
+                        self.drv.conv(inp, record=record, **kw)
+                    snapshot = (self.evals, set(self.keys), Counter(self.tags))
+                    msg3 = mod.check_case(self, case)
+                    self.evals, self.keys, self.tags = snapshot
+                    if msg3 is not None:
+                        case = dict(case)
+                        case['_history'] = [{'input': i, 'kw': k} for (i, k, r) in prior]
+                        msg2 = ('%s -- only after the %d conversions this process served before (a fresh process converts '
+                                'this input correctly): the result depends on the history' % (msg3 if isinstance(msg3, str) else msg3[0], len(prior)))
             except (DriverDied, Watchdog) as e:
                 return self._after_crash(case, e)
             if msg2 is None:
-                self.inconclusive['disagreement did not reproduce on a fresh driver'] += 1
+                self.inconclusive['disagreement did not reproduce, neither on a fresh driver nor with the recorded history'] += 1
                 return None
             msg = msg2
         self._violation(case, msg)
@@ -901,6 +924,11 @@ def replay(module, path):
     log('replaying %s (%s seed=%s)' % (path, rec.get('tier'), rec.get('seed')))
     binary = build_driver()
     ctx = Ctx(module, binary, rec.get('tier', 'quick'), rec.get('seed', 1), module.replay_extra(binary) if hasattr(module, 'replay_extra') else None)
+    if case.get('_history'):
+        d = ctx.driver()
+        for h in case['_history']:
+            d.conv(h['input'], **h['kw'])
+        log('replayed the %d conversions the process had served before' % len(case['_history']))
     if case.get('driver') == 'info':
         try:
             driver_info(binary)
